@@ -548,3 +548,54 @@ func Harness_app_cyclic_book() {
 		verifAssert("acyclic-book-resolves-under-default-limit", err == nil)
 	}
 }
+
+// Harness_app_keywords: --begin/--end given as today, yesterday, last7 or last30 (globally or on
+// the sub-command) select exactly the days from/up to --today minus 0, 1, 7, 30 days.
+func Harness_app_keywords() {
+	layout := "2006/01/02"
+	kws := []string{"today", "yesterday", "last7", "last30"}
+	back := []int{0, 1, 7, 30}
+	ki := verifChoose("keyword", len(kws))
+	verifLabel("keyword", kws[ki])
+	asEnd := verifChoose("bound", 2) == 1
+	onSub := verifChoose("position", 2) == 1
+	today := verifDay("today", layout, 60)
+	tToday, _ := time.Parse(layout, today)
+	bound := tToday.AddDate(0, 0, -back[ki])
+	heads := []string{verifDay("day", layout, 60), verifDay("day", layout, 60)}
+	keep := make([]bool, len(heads))
+	mk := func(keep []bool) string {
+		src := ""
+		for i, h := range heads {
+			if keep == nil || keep[i] {
+				src += h + ":\n  f" + string(rune('0'+i)) + ": 1\n"
+			}
+		}
+		return src
+	}
+	for i, h := range heads {
+		t, _ := time.Parse(layout, h)
+		if asEnd {
+			keep[i] = !t.After(bound)
+		} else {
+			keep[i] = !t.Before(bound)
+		}
+	}
+	flag := "--begin="
+	if asEnd {
+		flag = "--end="
+	}
+	cmd := [][]string{{"print"}, {"bal"}}[verifChoose("command", 2)]
+	global := []string{"--today=" + today, "--no-color", "--database=" + verifFile("db", hAppDB)}
+	var a1 []string
+	if onSub {
+		a1 = append(append(append([]string{"--logfile=" + verifFile("full", mk(nil))}, global...), cmd...), flag+kws[ki])
+	} else {
+		a1 = append(append(append([]string{"--logfile=" + verifFile("full", mk(nil))}, global...), flag+kws[ki]), cmd...)
+	}
+	out1, err1 := hApp(-1, a1...)
+	out2, err2 := hApp(-1, append(append([]string{"--logfile=" + verifFile("kept", mk(keep))}, global...), cmd...)...)
+	verifCover("ran")
+	verifAssert("keyword-run-ok", err1 == nil && err2 == nil)
+	verifAssert("keyword-period=output-on-filtered-log", out1 == out2)
+}
